@@ -193,6 +193,15 @@ func (r *runner) Step(t []string) string {
 				return "hang"
 			}
 		}
+		// restart timers still armed when the step budget is used up fire in real time: leaving them
+		// armed would make every later observation a race (seen on a loaded machine: `dump` after the
+		// closing `settle` of a restart loop showed the restart request already queued). Release them;
+		// a fired timer only enqueues the request and arms nothing.
+		for len(s.armed) > 0 && !s.crashed {
+			if s.Fire() == "hang" {
+				return "hang"
+			}
+		}
 		s.deadSeen = len(s.dead)
 		for _, a := range s.actors {
 			a.seen = len(a.log)
